@@ -640,15 +640,26 @@ pub const RULE: &str = "text: (i) the complete product placement(~200: valid one
 
 pub fn run(tier: Tier) -> i32 {
     let run = Arc::new(Run::new("C07", tier, COUNTERS));
+    let mut phases: Vec<(String, f64)> = vec![];
+    let mut t0 = run.elapsed();
+    let mut lap = |name: &str, run: &Run, phases: &mut Vec<(String, f64)>| {
+        let t = run.elapsed();
+        phases.push((name.to_string(), t - t0));
+        t0 = t;
+    };
     crowded(&run, tier);
+    lap("crowded boards", &run, &mut phases);
     if !run.has_violation() {
         field_product(&run);
+        lap("text field product", &run, &mut phases);
     }
     if !run.has_violation() {
         edit_balls(&run, tier);
+        lap("text edit balls", &run, &mut phases);
     }
     if !run.has_violation() {
         short_strings(&run, tier.pick(3, 4));
+        lap("short strings", &run, &mut phases);
     }
     if !run.has_violation() {
         match tier {
@@ -659,8 +670,10 @@ pub fn run(tier: Tier) -> i32 {
             }
         }
     }
+    lap("builder states with few men", &run, &mut phases);
     if !run.has_violation() {
         structured_builder_states(&run);
+        lap("structured builder families", &run, &mut phases);
     }
     if run.over_budget() {
         run.cap("wall-clock budget reached during the builder-state enumeration (first-man slices not started were skipped)".into());
@@ -673,6 +686,8 @@ pub fn run(tier: Tier) -> i32 {
         }
         run_plan(&run, &oracle, &plan);
     }
+    lap("standard universes", &run, &mut phases);
+    run.note("phase_seconds", json!(phases.iter().map(|(n, t)| json!({"phase": n, "seconds": t})).collect::<Vec<_>>()));
     let acc = run.get("texts_accepted") + run.get("builder_states_accepted") + run.get("universe_positions_accepted");
     run.nontrivial.store(acc, Ordering::Relaxed);
     run.evaluations.store(run.get("texts_tried") + run.get("builder_states_tried") + run.get("universe_positions_accepted"), Ordering::Relaxed);
